@@ -213,7 +213,9 @@ fn search_closed_2d_selection(
         node_limit: usize,
     ) -> bool {
         if chosen == target_faces {
-            return true;
+            // 2V faces whose edges are each used at most twice are a closed surface only if no
+            // edge is used exactly once; otherwise keep searching.
+            return edge_counts.iter().all(|&count| count != 1);
         }
         if pos == order.len() {
             return false;
